@@ -11,17 +11,26 @@
 (***************************************************************************)
 EXTENDS JudgeCore, Arith
 
-(* evaluation along a witness order that is checked on the way *)
-EvalChecked(c, order, cols, all) ==
+(* Gate maps read from JSON are TLC records, whose field selection is linear in the number of
+   fields; AsFcn copies such a map once into a function (hashed lookup), which keeps the
+   evaluation of circuits with thousands of gates feasible. *)
+AsFcn(rec) == [l \in DOMAIN rec |-> rec[l]]
+
+(* evaluation along a witness order that is checked on the way; G = AsFcn(c.g) *)
+EvalChecked(G, order, cols, all) ==
   FoldLeft(LAMBDA acc, l :
-     IF ~acc.ok \/ l \notin DOMAIN c.g THEN [acc EXCEPT !.ok = FALSE]
+     IF ~acc.ok \/ l \notin DOMAIN G THEN [acc EXCEPT !.ok = FALSE]
      ELSE IF l \in DOMAIN acc.v THEN acc
-     ELSE IF ~(OpSet(c, l) \subseteq DOMAIN acc.v) THEN [acc EXCEPT !.ok = FALSE]
-     ELSE [acc EXCEPT !.v = (l :> GateSet(c.g[l].t, [j \in DOMAIN Ops(c, l) |-> acc.v[Ops(c, l)[j]]], all)) @@ acc.v],
+     ELSE LET ops == G[l].o IN
+          IF \E j \in DOMAIN ops : ops[j] \notin DOMAIN acc.v THEN [acc EXCEPT !.ok = FALSE]
+          ELSE [acc EXCEPT !.v = (l :> GateSet(G[l].t, [j \in DOMAIN ops |-> acc.v[ops[j]]], all)) @@ acc.v],
    [ok |-> TRUE, v |-> cols], order)
 
 ARows(c) == IF c.sampled THEN 1 .. c.nrows ELSE AllRows(Len(c.post.i))
-AColsOf(c, circ) == IF c.sampled THEN [l \in SeqSet(circ.i) |-> SeqSet(c.cols[l])] ELSE InputCols(circ)
+(* columns are attached to input LABELS of the circuit after the call, so that a host whose
+   input order was changed by the generator is still compared gate by gate *)
+AColsOf(c, circ) == IF c.sampled THEN [l \in SeqSet(circ.i) |-> SeqSet(c.cols[l])]
+                    ELSE LET pc == InputCols(c.post) IN [l \in SeqSet(circ.i) |-> pc[l]]
 AOrder(c, circ) == IF Has(c, "order") /\ circ = c.post THEN c.order ELSE TopoSeq(circ)
 
 Bits(tt, labs, r) == [j \in DOMAIN labs |-> r \in tt[labs[j]]]
@@ -48,6 +57,12 @@ CheckOK(tt, rows, k) ==
               LET a == NVal(tt, k.a, r)  b == NVal(tt, k.b, r)  m == TwoTo(Len(k.a))
               IN /\ NVal(tt, k.out, r) = (a + m * (b \div m + 1) - b) % m
                  /\ k.borrow # "" => ((r \in tt[k.borrow]) <=> (a < b))
+    [] k.op = "subc" ->
+         /\ Len(k.out) >= Len(k.a)
+         /\ \A r \in rows :
+              LET a == NVal(tt, k.a, r)  b == NVal(tt, k.b, r)  m == TwoTo(Len(k.out))
+              IN /\ NVal(tt, k.out, r) = (a + m * (b \div m + 1) - b) % m
+                 /\ (r \in tt[k.borrow]) <=> (a < b)
     [] k.op = "divmod" ->
          \A r \in rows :
               LET a == NVal(tt, k.a, r)  b == NVal(tt, k.b, r)
@@ -74,32 +89,44 @@ ArithFails(c) ==
   IF c.exc # "" THEN {"generator-raised:" \o c.exc}
   ELSE
   LET pre == c.pre  post == c.post
+      G == AsFcn(post.g)
+      GP == AsFcn(pre.g)
       rows == ARows(c)
-      new == DOMAIN post.g \ DOMAIN pre.g
-      existOK == SeqSet(c.returned) \subseteq DOMAIN post.g
-      wf == WF1(post) /\ WF3(post) /\ WF4(post)
-      ev == IF wf /\ existOK THEN EvalChecked(post, AOrder(c, post), AColsOf(c, post), rows)
+      new == DOMAIN G \ DOMAIN GP
+      existOK == SeqSet(c.returned) \subseteq DOMAIN G
+      small == Cardinality(DOMAIN G) <= 400
+      \* operands exist, input list exact; the quadratic users-index check only for moderate sizes
+      wf == /\ \A l \in DOMAIN G : \A j \in DOMAIN G[l].o : G[l].o[j] \in DOMAIN G
+            /\ NoDup(post.i) /\ SeqSet(post.i) = {l \in DOMAIN G : G[l].t = "INPUT"}
+            /\ (~small \/ WF3(post))
+      ev == IF wf /\ existOK THEN EvalChecked(G, AOrder(c, post), AColsOf(c, post), rows)
             ELSE [ok |-> FALSE, v |-> <<>>]
-      good == ev.ok /\ DOMAIN ev.v = DOMAIN post.g
-      evpre == IF good /\ pre.i = post.i /\ DOMAIN pre.g \subseteq DOMAIN post.g
-               THEN EvalChecked(pre, TopoSeq(pre), AColsOf(c, pre), rows) ELSE [ok |-> FALSE, v |-> <<>>]
+      good == ev.ok /\ DOMAIN ev.v = DOMAIN G
+      evpre == IF good /\ SeqSet(pre.i) = SeqSet(post.i) /\ DOMAIN GP \subseteq DOMAIN G
+               THEN EvalChecked(GP, TopoSeq(pre), AColsOf(c, pre), rows) ELSE [ok |-> FALSE, v |-> <<>>]
   IN FailSet(<<
        <<"returned-label-is-not-a-gate", existOK>>,
        <<"host-circuit-ill-formed-after-call", wf /\ (~existOK \/ good)>>,
        <<"identity:" \o c.name, ~good \/ \A j \in DOMAIN c.checks : CheckOK(ev.v, rows, c.checks[j])>>,
-       <<"host-inputs-changed", post.i = pre.i>>,
-       <<"pre-existing-gate-removed", DOMAIN pre.g \subseteq DOMAIN post.g>>,
+       <<"host-input-set-changed", SeqSet(post.i) = SeqSet(pre.i) /\ Len(post.i) = Len(pre.i)>>,
+       <<"pre-existing-gate-removed", DOMAIN GP \subseteq DOMAIN G>>,
        <<"pre-existing-gate-function-changed",
-           ~good \/ ~evpre.ok \/ \A l \in DOMAIN pre.g : ev.v[l] = evpre.v[l]>>,
+           ~good \/ ~evpre.ok \/ \A l \in DOMAIN GP : ev.v[l] = evpre.v[l]>>,
        <<"outputs-marked-differently-than-asked",
            CASE c.outmode = "same" -> post.o = pre.o
              [] c.outmode = "append" -> post.o = pre.o \o c.outlabels
              [] c.outmode = "set" -> post.o = c.outlabels
+             \* exactly the returned bits are added to the outputs (any order; the plus-one gadget
+             \* documents no order), nothing else
+             [] c.outmode = "appendset" ->
+                  /\ Len(post.o) = Len(pre.o) + Len(c.outlabels)
+                  /\ \A x \in SeqSet(post.o) \cup SeqSet(pre.o) \cup SeqSet(c.outlabels) :
+                        Occ(post.o, x) = Occ(pre.o, x) + Occ(c.outlabels, x)
              [] OTHER -> TRUE>>,
        <<"gate-outside-requested-basis",
-           c.basis # "AIG" \/ \A l \in new : post.g[l].t \notin {"XOR", "NXOR"}>>,
+           c.basis # "AIG" \/ \A l \in new : G[l].t \notin {"XOR", "NXOR"}>>,
        <<"documented-gate-count-bound-exceeded",
-           c.bound < 0 \/ Cardinality({l \in new : post.g[l].t \notin
+           c.bound < 0 \/ Cardinality({l \in new : G[l].t \notin
                {"INPUT", "NOT", "LNOT", "RNOT", "IFF", "LIFF", "RIFF", "ALWAYS_TRUE", "ALWAYS_FALSE"}}) <= c.bound>>
      >>)
 =============================================================================
